@@ -24,6 +24,14 @@
 //	Every placement of <=F faults, <=C crashes, <=E events is executed (children are generated from the
 //	parent's executed trace, so "the k-th call gets outcome o" is enumerated for every reachable k).
 //
+// Hub-fault dimension (hubfault.go): while the real hub serves a transport call, every statement its index sends to
+// SQLite (SELECT / UPSERT / DELETE / UPDATE) and every storage call of Receiver / Reconciler (Exists / StatFile /
+// WriteReader / AppendReader / ReadTo / Delete) is recorded and can be failed, `once` or `persistent`; one hub fault is
+// placed at every hub operation of every transport call of the main runs, alone and combined with <=1 call fault or
+// spoke crash and <=1 storage event in every order (quick: in a 2-run configuration, thorough: 3 runs).
+//
+// Execution (pool.go): the parent process searches, N single-threaded worker processes execute the histories.
+//
 // Second universe (chain.go): ONE file, R main runs, no bound on the number of perturbations — every transfer
 // attempt takes every outcome of {pass, body cut at grid position 0 / 1 / half / all-but-one with the answer
 // delivered | lost | spoke crash before the ledger write, complete body with the answer lost | crash before
@@ -100,6 +108,9 @@ func init() { contentOf[pC] = append(append([]byte{}, contentOf[pF1]...), conten
 
 func shaHex(b []byte) string { s := sha256.Sum256(b); return hex.EncodeToString(s[:]) }
 
+// hashState: state keys travel between processes and are only ever compared.
+func hashState(s string) string { return shaHex([]byte(s))[:32] }
+
 func nameOf(p string) string {
 	if n, ok := shortName[p]; ok {
 		return n
@@ -143,7 +154,7 @@ type pert struct {
 	Run  int    `json:"run"`  // 1..3
 	At   string `json:"at"`   // "reconcile" | "put(f1)" | "put(f2)" | "put(c)" | "gap"
 	Occ  int    `json:"occ"`  // n-th such call within the run (1-based; 1 for gap)
-	Kind string `json:"kind"` // "event" | "fault" | "crash"
+	Kind string `json:"kind"` // "event" | "fault" | "crash" | "hub" (hubfault.go: What = "<hub operation>#<n>:<once|persistent>")
 	What string `json:"what"`
 }
 
@@ -157,6 +168,9 @@ func (p pert) String() string {
 	}
 	if p.Kind == "event" {
 		return fmt.Sprintf("r%d:before-%s:%s", p.Run, at, p.What)
+	}
+	if p.Kind == kindHub {
+		return fmt.Sprintf("r%d:%s:hub-fault(%s)", p.Run, at, p.What)
 	}
 	return fmt.Sprintf("r%d:%s=%s", p.Run, at, p.What)
 }
@@ -172,6 +186,10 @@ type history struct {
 	Runs        int    `json:"runs,omitempty"` // main (perturbable) runs; 0 = mainRuns
 	MaxAttempts int    `json:"max_attempts"`   // 0 = edgesync.DefaultMaxAttempts
 	Perts       []pert `json:"perturbations"`
+	// twinOK (search bookkeeping, not part of the history): the history has a `once` hub fault and the execution of its
+	// parent showed no later hub operation of that kind in the main runs (or the hub fault is its last perturbation), so
+	// up to its last perturbed point the persistent form runs identically and is a valid history
+	twinOK bool
 }
 
 // with returns the same universe / run count / retry cap with another perturbation list.
@@ -215,6 +233,7 @@ type pointInfo struct {
 	Events   []string // events applicable at this point (measured on the real state)
 	HasEvent bool
 	HasFault bool
+	HubOps   []string `json:",omitempty"` // call: hub operations the real hub performed while serving it (sorted)
 }
 
 type rawViol struct {
@@ -231,6 +250,11 @@ type world struct {
 	ledgerDB *sql.DB // the agent's handle (re-opened after a crash)
 	obsDB    *sql.DB // harness handle on the ledger file: transition log reads, gate + observer ledger
 	hubDB    *sql.DB
+	hub      *hubState // hubfault.go
+	leaf     bool      // no perturbation can be added to this history under its bounds: nobody needs the points after quiescence
+	calls    int       // transport calls of the current run
+	evCount  int       // storage events applied so far
+	curAddr  addr      // the transport call being served
 	toolLed  *edgesync.Ledger
 	agentLed *edgesync.Ledger
 	wantEv   bool // compute the applicable-event set at each point (only when a child may add an event)
@@ -299,7 +323,7 @@ CREATE TRIGGER IF NOT EXISTS zz_verif_del AFTER DELETE ON sync_ledger BEGIN
 
 func newWorld(dir string, h history) *world {
 	w := &world{dir: dir, h: h, plan: map[addr][]pert{}, occ: map[string]int{}, hubCompacted: map[string]bool{},
-		violSeen: map[string]bool{}, transSeen: map[string]int{}, outcomeSeen: map[string]int{}, ckSeen: map[string]int{}, storDirty: true, idxDirty: true}
+		violSeen: map[string]bool{}, transSeen: map[string]int{}, outcomeSeen: map[string]int{}, ckSeen: map[string]int{}, storDirty: true, idxDirty: true, hub: newHubState()}
 	for _, p := range h.Perts {
 		a := addr{p.Run, p.At, p.Occ}
 		w.plan[a] = append(w.plan[a], p)
@@ -320,20 +344,29 @@ func newWorld(dir string, h history) *world {
 	must(os.WriteFile(filepath.Join(dir, "ledger.db"), tplLedger, 0o644), "ledger template")
 	must(os.WriteFile(filepath.Join(dir, "hub.db"), tplHub, 0o644), "hub index template")
 	w.obsDB = openSQLite(filepath.Join(dir, "ledger.db"))
-	w.hubDB = openSQLite(filepath.Join(dir, "hub.db"))
+	// the hub's index handle and the backend handed to Receiver / Reconciler are wrapped (hubfault.go): every statement and
+	// every storage call the hub makes while serving a transport call is recorded and can be failed
+	w.hubDB = openHubSQLite(filepath.Join(dir, "hub.db"), w)
 	w.index, err = edgesync.NewHubIndex(w.hubDB, zerolog.Nop())
 	must(err, "hub index")
-	w.recv, err = edgesync.NewReceiver(edgesync.ReceiverConfig{Backend: w.hubBE, Index: w.index, Logger: zerolog.Nop()})
+	w.recv, err = edgesync.NewReceiver(edgesync.ReceiverConfig{Backend: &hubBackend{w.hubBE, w}, Index: w.index, Logger: zerolog.Nop()})
 	must(err, "receiver")
-	w.recon, err = edgesync.NewReconciler(edgesync.ReconcilerConfig{Index: w.index, Backend: w.hubBE})
+	w.recon, err = edgesync.NewReconciler(edgesync.ReconcilerConfig{Index: w.index, Backend: &hubBackend{w.hubBE, w}})
 	must(err, "reconciler")
-	if h.Cfg != cfgChain { // the chain universe has no spoke compaction
-		w.toolLed, err = edgesync.NewLedger(w.obsDB, zerolog.Nop())
-		must(err, "tool ledger")
-		w.gate = edgesync.NewCompactionEligibility(w.toolLed, hubID, gateEpoch, zerolog.Nop())
-		w.observer = edgesync.NewCompactedOutputObserver(w.toolLed, hubID, gateEpoch, zerolog.Nop())
-	}
 	return w
+}
+
+// tools: the spoke's compaction gate and compacted-output observer (2-file universe only), built on first use — most
+// histories never ask whether spoke compaction is applicable.
+func (w *world) tools() {
+	if w.toolLed != nil {
+		return
+	}
+	var err error
+	w.toolLed, err = edgesync.NewLedger(w.obsDB, zerolog.Nop())
+	must(err, "tool ledger")
+	w.gate = edgesync.NewCompactionEligibility(w.toolLed, hubID, gateEpoch, zerolog.Nop())
+	w.observer = edgesync.NewCompactedOutputObserver(w.toolLed, hubID, gateEpoch, zerolog.Nop())
 }
 
 var tplLedger, tplHub []byte
@@ -579,6 +612,7 @@ func (w *world) applicableEvents(at string) []string {
 	}
 	if s1 && s2 && !exists(w.spokeFile(pC)) {
 		// the REAL delivery gate decides whether compaction may consume the two files
+		w.tools()
 		ok, err := w.gate(context.Background(), []string{pF1, pF2})
 		if err == nil && ok[pF1] && ok[pF2] {
 			out = append(out, evSpokeCompact)
@@ -615,6 +649,7 @@ func (w *world) applyEvent(e string) {
 	case evSpokeCompact:
 		// what compaction.Manager does under the gate: write the output, tell the observer, delete the inputs
 		must(w.spokeBE.Write(ctx, pC, contentOf[pC]), e)
+		w.tools()
 		w.observer(pC)
 		must(w.spokeBE.Delete(ctx, pF1), e)
 		must(w.spokeBE.Delete(ctx, pF2), e)
@@ -648,11 +683,15 @@ func (w *world) point(at string, isCall, isPut, bodyOK bool, bodyLen int) string
 	if at == "gap" && w.keyPending {
 		// end of the run that held the history's last perturbation (a call fault / crash), before any gap event
 		w.keyPending = false
-		w.key, w.keyRun, w.keyAfterEvent = w.fullState(), w.run, false
+		w.key, w.keyRun, w.keyAfterEvent = hashState(w.fullState()), w.run, false
 	}
 	w.occ[fmt.Sprintf("%d/%s", w.run, at)]++
 	a := addr{w.run, at, w.occ[fmt.Sprintf("%d/%s", w.run, at)]}
 	pi := pointInfo{A: a, IsCall: isCall, IsPut: isPut, BodyOK: bodyOK, BodyLen: bodyLen}
+	if isCall {
+		w.calls++
+		w.curAddr = a
+	}
 	if (w.wantEv && w.run <= w.h.nRuns()) || len(w.plan[a]) > 0 {
 		pi.Events = w.applicableEvents(at)
 	}
@@ -671,11 +710,20 @@ func (w *world) point(at string, isCall, isPut, bodyOK bool, bodyLen int) string
 				continue
 			}
 			w.steps++
+			w.evCount++
 			w.trace = append(w.trace, "  event "+p.String())
 			w.applyEvent(p.What)
 			if isLast {
-				w.key, w.keyRun, w.keyAfterEvent = w.fullState(), w.run, true
+				w.key, w.keyRun, w.keyAfterEvent = hashState(w.fullState()), w.run, true
 			}
+		case kindHub:
+			if !isCall || (isPut && !bodyOK) {
+				w.inapplicable = p.String()
+				continue
+			}
+			op, mode := parseHubWhat(p.What)
+			w.hub.plan[op] = mode
+			w.keyPending = isLast
 		default:
 			pi.HasFault = true
 			if !isCall || (isPut && !bodyOK) {
@@ -718,19 +766,23 @@ func (t *faultTransport) Reconcile(ctx context.Context, hub string, pending []*e
 	}
 	call := fmt.Sprintf("  r%d reconcile[%s] %s", w.run, strings.Join(names, ","), o)
 	if o == oDropB {
+		w.hubCancel()
 		w.trace = append(w.trace, call+" -> link error, hub never saw it")
 		return nil, errLink
 	}
 	if o == oCrashB {
+		w.hubCancel()
 		w.trace = append(w.trace, call)
 		return nil, t.crash()
 	}
+	w.hubBegin()
 	res, err := w.recon.Reconcile(context.Background(), spokeID, entries)
+	fired := w.hubEnd()
 	w.idxDirty = true // Reconcile forgets receipts whose file is gone; it writes nothing to storage
 	if err != nil {
-		w.trace = append(w.trace, call+" -> hub error "+err.Error())
+		w.trace = append(w.trace, call+" -> "+hubErrText(err, fired))
 	} else {
-		w.trace = append(w.trace, call+fmt.Sprintf(" -> missing=%v present=%v conflicts=%d", short(res.Missing), short(res.Present), len(res.Conflicts)))
+		w.trace = append(w.trace, call+fmt.Sprintf(" -> missing=%v present=%v conflicts=%d", short(res.Missing), short(res.Present), len(res.Conflicts))+firedNote(fired))
 	}
 	switch o {
 	case oDropA:
@@ -783,8 +835,13 @@ func (t *faultTransport) PutFile(ctx context.Context, hub string, entry *edgesyn
 	w.steps++
 	call := fmt.Sprintf("  r%d put(%s) offset=%d body=%d %s", w.run, nameOf(entry.Path), offset, len(data), o)
 	if rerr != nil {
+		w.hubCancel()
 		w.trace = append(w.trace, call+" -> body unreadable on the spoke: "+rerr.Error())
 		return nil, fmt.Errorf("edgesync: file request: %w", rerr)
+	}
+	switch o {
+	case oDropB, oCrashB, oBackpressure, oConflict:
+		w.hubCancel()
 	}
 	switch o {
 	case oDropB:
@@ -818,13 +875,15 @@ func (t *faultTransport) PutFile(ctx context.Context, hub string, entry *edgesyn
 		send[len(send)/2] ^= 0x5a
 	}
 	hadCopy := exists(w.hubFinal(entry.Path)) || w.hubCompacted[entry.Path]
+	w.hubBegin()
 	res, err := w.recv.Receive(context.Background(), spokeID, entry.Path, entry.SHA256, entry.SizeBytes, offset, bytes.NewReader(send))
+	fired := w.hubEnd()
 	w.storDirty, w.idxDirty = true, true
 	if err != nil {
-		w.trace = append(w.trace, call+" -> hub error "+err.Error())
+		w.trace = append(w.trace, call+" -> "+hubErrText(err, fired))
 		w.outcomeSeen["hub-error"]++
 	} else {
-		w.trace = append(w.trace, call+fmt.Sprintf(" -> %s accepted=%d", res.Outcome, res.BytesAccepted))
+		w.trace = append(w.trace, call+fmt.Sprintf(" -> %s accepted=%d", res.Outcome, res.BytesAccepted)+firedNote(fired))
 		w.outcomeSeen[string(res.Outcome)]++
 		if res.Outcome == edgesync.OutcomeCommitted && hadCopy {
 			w.violate("stored-twice", fmt.Sprintf("the receiver committed %s again although the hub already held a copy", nameOf(entry.Path)))
@@ -883,12 +942,30 @@ func (w *world) agentRun() {
 
 func terminal(s string) bool { return s == "synced" || s == "skipped" || s == "failed" }
 
+func (w *world) allTerminal() bool {
+	for _, s := range w.ledgerStates() {
+		if !terminal(s) {
+			return false
+		}
+	}
+	return true
+}
+
 func (w *world) execute() {
 	runs := w.h.nRuns()
 	for w.run = 1; w.run <= runs; w.run++ {
 		w.trace = append(w.trace, fmt.Sprintf("run %d", w.run))
+		logAt, evAt := w.logPos, w.evCount
+		w.calls = 0
 		w.agentRun()
 		w.point("gap", false, false, true, 0)
+		if w.leaf && len(w.plan) == 0 && w.calls == 0 && w.logPos == logAt && w.evCount == evAt && w.inapplicable == "" && w.allTerminal() {
+			// Every perturbation of the history has happened, and a whole pass made no transport call and changed no ledger
+			// row while every row is synced / skipped / failed: every further pass (main or closing) is this pass again.
+			// The remaining main runs exist only to offer placements to longer histories — a leaf has none.
+			w.trace = append(w.trace, "  (quiescent; no perturbation left: remaining runs not repeated)")
+			return
+		}
 		if w.key != "" && w.covered != nil && w.covered(w.key, w.keyRun, w.keyAfterEvent) {
 			// chain universe: the state right after the last perturbation was already extended at an earlier level;
 			// what follows (perturbation-free runs to quiescence) is that history's continuation
@@ -903,6 +980,7 @@ func (w *world) execute() {
 		}
 	}
 	// O4: perturbations have stopped; fault-free runs until quiescent
+	w.hubMainRunsOver()
 	for i := 1; i <= maxClose; i++ {
 		w.run = runs + i
 		w.trace = append(w.trace, fmt.Sprintf("closing run %d", i))
@@ -948,21 +1026,27 @@ type result struct {
 	keyAfterEv   bool
 	cut          bool
 	ckSeen       map[string]int
+	laterSame    bool           // hub fault `once`: a later hub operation of the same kind happened inside the main runs
+	hubSeen      map[string]int // hub operations observed while serving, by kind
+	hubFailed    map[string]int // hub operations failed by injection, by kind
+	hubFired     []pert         // where injected hub failures fired in the main runs, each as a `once` fault (for the minimiser)
 }
 
 var (
 	scratch string
 	worldN  int64
+	thePool *pool
 )
 
-func runHistory(h history, wantEv bool) *result { return runHistoryCut(h, wantEv, nil) }
+func runHistory(h history, wantEv bool) *result { return runHistoryCut(h, wantEv, false, nil) }
 
 // runHistoryCut: covered (chain universe) tells whether a state was already extended by a history of an earlier
 // level; such a history is cut right there.
-func runHistoryCut(h history, wantEv bool, covered func(key string, run int, afterEvent bool) bool) *result {
+func runHistoryCut(h history, wantEv, leaf bool, covered func(key string, run int, afterEvent bool) bool) *result {
 	dir := filepath.Join(scratch, fmt.Sprintf("w%d", atomic.AddInt64(&worldN, 1)))
 	w := newWorld(dir, h)
 	w.wantEv = wantEv
+	w.leaf = leaf
 	w.covered = covered
 	wd := time.AfterFunc(120*time.Second, func() {
 		os.RemoveAll(scratch)
@@ -971,7 +1055,8 @@ func runHistoryCut(h history, wantEv bool, covered func(key string, run int, aft
 	w.execute()
 	wd.Stop()
 	r := &result{h: h, points: w.points, viols: w.viols, inapplicable: w.inapplicable, trace: w.trace, canons: w.canons, steps: w.steps,
-		transSeen: w.transSeen, outcomeSeen: w.outcomeSeen, closingRuns: w.closingRuns, agentErrs: w.agentErrs, key: w.key, keyRun: w.keyRun, keyAfterEv: w.keyAfterEvent, ckSeen: w.ckSeen, cut: w.cut}
+		transSeen: w.transSeen, outcomeSeen: w.outcomeSeen, closingRuns: w.closingRuns, agentErrs: w.agentErrs, key: w.key, keyRun: w.keyRun, keyAfterEv: w.keyAfterEvent, ckSeen: w.ckSeen, cut: w.cut,
+		laterSame: w.hub.laterSame, hubSeen: w.hub.seen, hubFailed: w.hub.failed, hubFired: w.hub.sites}
 	if n := len(w.canons); n > 0 {
 		r.final = w.canons[n-1]
 	}
@@ -981,7 +1066,10 @@ func runHistoryCut(h history, wantEv bool, covered func(key string, run int, aft
 
 // ---------------------------------------------------------------- enumeration
 
-type bounds struct{ F, C, E, Total int }
+// bounds: F call faults, C spoke crashes, E storage events, Total perturbations for a history WITHOUT a hub fault; a history
+// WITH a hub fault (at most H of them; H is 0 or 1) holds at most HF call faults + crashes together, HE storage events and
+// HTotal perturbations including the hub fault.
+type bounds struct{ F, C, E, Total, H, HF, HE, HTotal int }
 
 func count(h history) (f, c, e int) {
 	for _, p := range h.Perts {
@@ -990,6 +1078,7 @@ func count(h history) (f, c, e int) {
 			f++
 		case "crash":
 			c++
+		case kindHub:
 		default:
 			e++
 		}
@@ -997,15 +1086,35 @@ func count(h history) (f, c, e int) {
 	return
 }
 
+// room tells which kinds of perturbation may still be added to h under b.
+func room(h history, b bounds) (fault, crash, event, hub bool) {
+	f, c, e := count(h)
+	if hubPert(h) < 0 {
+		total := f + c + e
+		fault = f < b.F && total < b.Total
+		crash = c < b.C && total < b.Total
+		event = e < b.E && total < b.Total
+		hub = b.H > 0 && f+c <= b.HF && e <= b.HE && total+1 <= b.HTotal
+		return
+	}
+	total := f + c + e + 1
+	fault = f+c < b.HF && total < b.HTotal
+	crash = fault
+	event = e < b.HE && total < b.HTotal
+	return
+}
+
 // children: every way to add ONE perturbation at or after the parent's last perturbed point. The prefix of
 // the execution up to that point is identical in parent and child (everything is deterministic), so the
 // parent's trace tells which calls exist there, what they are, and which events are applicable.
 func children(r *result, b bounds) []history {
-	f, c, e := count(r.h)
-	if f+c+e >= b.Total {
+	f, c, _ := count(r.h)
+	okF, okC, okE, okH := room(r.h, b)
+	if !okF && !okC && !okE && !okH {
 		return nil
 	}
 	last := -1
+	lastWasHub := false
 	lastWasEvent := false
 	if n := len(r.h.Perts); n > 0 {
 		lp := r.h.Perts[n-1]
@@ -1015,6 +1124,7 @@ func children(r *result, b bounds) []history {
 			}
 		}
 		lastWasEvent = lp.Kind == "event"
+		lastWasHub = lp.Kind == kindHub
 		if last < 0 {
 			return nil
 		}
@@ -1024,15 +1134,26 @@ func children(r *result, b bounds) []history {
 		out = append(out, r.h.with(append(append([]pert{}, r.h.Perts...), p)))
 	}
 	for i, pi := range r.points {
-		if pi.A.Run > r.h.nRuns() || i < last || (i == last && !lastWasEvent) {
+		// order of the perturbations of one point: event, then call fault / crash, then hub fault
+		if pi.A.Run > r.h.nRuns() || i < last || (i == last && lastWasHub) {
 			continue
 		}
-		if i > last && e < b.E {
+		if i > last && okE {
 			for _, evn := range pi.Events {
 				add(pert{pi.A.Run, pi.A.At, pi.A.Occ, "event", evn})
 			}
 		}
 		if !pi.IsCall || (pi.IsPut && !pi.BodyOK) {
+			continue
+		}
+		if okH {
+			// one hub fault at every hub operation the call performed (measured in the parent's execution, with the parent's
+			// own fault on this call, if any, in effect); mode `once` — see persistentTwin for the other mode
+			for _, op := range pi.HubOps {
+				add(pert{pi.A.Run, pi.A.At, pi.A.Occ, kindHub, hubWhat(op, modeOnce)})
+			}
+		}
+		if i == last && !lastWasEvent {
 			continue
 		}
 		if r.h.Cfg == cfgChain {
@@ -1052,7 +1173,7 @@ func children(r *result, b bounds) []history {
 			}
 			continue
 		}
-		if f < b.F {
+		if okF {
 			fs := recFaults
 			if pi.IsPut {
 				fs = putFaults
@@ -1061,7 +1182,7 @@ func children(r *result, b bounds) []history {
 				add(pert{pi.A.Run, pi.A.At, pi.A.Occ, "fault", o})
 			}
 		}
-		if c < b.C {
+		if okC {
 			for _, o := range crashKinds {
 				add(pert{pi.A.Run, pi.A.At, pi.A.Occ, "crash", o})
 			}
@@ -1091,6 +1212,9 @@ func classSig(h history) string {
 	for _, p := range h.Perts {
 		if p.Kind == "event" {
 			parts = append(parts, name(gridless(p.What)))
+		} else if p.Kind == kindHub {
+			op, mode := parseHubWhat(p.What)
+			parts = append(parts, name(p.At)+"=hub-fault("+name(hubOccRe.ReplaceAllString(op, ""))+","+mode+")")
 		} else {
 			parts = append(parts, name(p.At)+"="+gridless(p.What))
 		}
@@ -1115,19 +1239,28 @@ func main() {
 	var err error
 	scratch, err = os.MkdirTemp("/dev/shm", fmt.Sprintf("verif.c27.%d.", os.Getpid()))
 	must(err, "scratch")
-	cleanup := func() { os.RemoveAll(scratch) }
+	cleanup := func() {
+		if thePool != nil {
+			thePool.close()
+		}
+		os.RemoveAll(scratch)
+	}
 	sig := make(chan os.Signal, 1)
 	signal.Notify(sig, syscall.SIGINT, syscall.SIGTERM)
 	go func() { <-sig; cleanup(); os.Exit(2) }()
 	buildTemplates()
+	debug.SetGCPercent(400)
 
+	if os.Getenv("VERIF_C27_WORKER") != "" { // pool.go: a worker process executes histories for the searching parent
+		workerMain()
+		cleanup()
+		return
+	}
 	if run.Replay != "" {
 		replay(run.Replay)
 		cleanup()
 		return
 	}
-
-	debug.SetGCPercent(400)
 	// bounds per ledger configuration (max_attempts 0 = the default, 5). The max_attempts=2 configuration
 	// exists to reach the retry cap (in_flight -> failed through MarkFailed) with two faults on one file; it is
 	// explored without storage events.
@@ -1138,11 +1271,12 @@ func main() {
 		b        bounds
 	}
 	all := bounds{F: 99, C: 99, E: 99, Total: 99} // chain universe: every placement in every main run
-	configs := []config{{"", 0, 0, bounds{F: 2, C: 1, E: 2, Total: 3}}, {"", 0, 2, bounds{F: 2, C: 1, E: 0, Total: 3}},
+	configs := []config{{"", 0, 0, bounds{F: 2, C: 1, E: 2, Total: 3, H: 1, HF: 1, HE: 1, HTotal: 3}}, {"", 0, 2, bounds{F: 2, C: 1, E: 0, Total: 3}},
 		{cfgChain, 4, 0, all}, {cfgChain, 3, 2, all}}
 	chainWithBefore = true
 	if run.Quick() {
-		configs = []config{{"", 0, 0, bounds{F: 1, C: 1, E: 1, Total: 2}}, {cfgChain, 3, 0, all}}
+		// the hub-fault dimension of the quick tier lives in a 2-run configuration of the 2-file universe (thorough: 3 runs)
+		configs = []config{{"", 0, 0, bounds{F: 1, C: 1, E: 1, Total: 2}}, {"", 2, 0, bounds{F: 1, C: 1, E: 1, Total: 2, H: 1, HF: 1, HE: 1, HTotal: 3}}, {cfgChain, 3, 0, all}}
 		chainWithBefore = false
 	}
 	if os.Getenv("VERIF_C27_CHAIN_BEFORE") != "" { // experiments only
@@ -1150,8 +1284,10 @@ func main() {
 	}
 	if s := os.Getenv("VERIF_C27_BOUNDS"); s != "" { // F,C,E,Total for the default configuration (experiments only)
 		var b bounds
-		fmt.Sscanf(s, "%d,%d,%d,%d", &b.F, &b.C, &b.E, &b.Total)
-		configs = []config{{"", 0, 0, b}}
+		fmt.Sscanf(s, "%d,%d,%d,%d,%d,%d,%d,%d", &b.F, &b.C, &b.E, &b.Total, &b.H, &b.HF, &b.HE, &b.HTotal)
+		c := config{"", 0, 0, b}
+		fmt.Sscanf(os.Getenv("VERIF_C27_RUNS"), "%d", &c.runs)
+		configs = []config{c}
 	}
 	if s := os.Getenv("VERIF_C27_CHAIN"); s != "" { // runs,max_attempts: only this chain configuration (experiments only)
 		c := config{cfg: cfgChain, b: all}
@@ -1159,7 +1295,7 @@ func main() {
 		configs = []config{c}
 	}
 	noDedup := os.Getenv("VERIF_C27_NODEDUP") != "" // experiments only: chain universe without state matching
-	cfgKey := func(h history) string { return fmt.Sprintf("%s/%d", h.Cfg, h.MaxAttempts) }
+	cfgKey := func(h history) string { return fmt.Sprintf("%s/%d/%d", h.Cfg, h.nRuns(), h.MaxAttempts) }
 	boundOf := map[string]bounds{}
 	var roots, chainRoots []history
 	var boundDesc []string
@@ -1173,13 +1309,23 @@ func main() {
 			continue
 		}
 		roots = append(roots, root)
-		boundDesc = append(boundDesc, fmt.Sprintf("2 files, %d main runs, max_attempts=%d: <=%d call faults, <=%d spoke crash, <=%d storage event, <=%d perturbations in total",
-			root.nRuns(), attemptsNames([]int{c.attempts})[0], c.b.F, c.b.C, c.b.E, c.b.Total))
+		d := fmt.Sprintf("2 files, %d main runs, max_attempts=%d: <=%d call faults, <=%d spoke crash, <=%d storage event, <=%d perturbations in total",
+			root.nRuns(), attemptsNames([]int{c.attempts})[0], c.b.F, c.b.C, c.b.E, c.b.Total)
+		if c.b.H > 0 {
+			d += fmt.Sprintf("; with a hub fault (<=%d; every hub operation of every transport call of the main runs, once + persistent): <=%d call fault or spoke crash, <=%d storage event, <=%d perturbations in total incl. the hub fault",
+				c.b.H, c.b.HF, c.b.HE, c.b.HTotal)
+		}
+		boundDesc = append(boundDesc, d)
 	}
 	// own wall-clock cap below the tier budget: a capped run reports exhaustive=false
 	capAt := time.Now().Add(12 * time.Minute)
 	if run.Quick() {
-		capAt = time.Now().Add(90 * time.Second)
+		capAt = time.Now().Add(200 * time.Second)
+	}
+	if cs := os.Getenv("VERIF_C27_CAP_S"); cs != "" { // experiments only
+		var n int
+		fmt.Sscanf(cs, "%d", &n)
+		capAt = time.Now().Add(time.Duration(n) * time.Second)
 	}
 
 	var (
@@ -1194,6 +1340,11 @@ func main() {
 		outcomeSeen = map[string]int{}
 		faultFired  = map[string]int{}
 		ckSeen      = map[string]int{}
+		hubSeen     = map[string]int{}
+		hubFailed   = map[string]int{}
+		hubModes    = map[string]int{}
+		twinSkipped int
+		claimed     = map[string]bool{}
 		perCfg      = map[string]int{}
 		histories   int
 		inapplic    int
@@ -1210,12 +1361,25 @@ func main() {
 		h := r.h
 		if r.inapplicable != "" {
 			inapplic++ // cannot happen for generated children; kept as a self-check
+			if inapplic <= 5 {
+				fmt.Fprintf(os.Stderr, "C27: inapplicable: %s: %s\n", h.String(), r.inapplicable)
+			}
 			return
 		}
 		histories++
 		uni := "2-file"
 		if h.Cfg != "" {
 			uni = h.Cfg
+		} else if hp := hubPert(h); hp >= 0 {
+			uni = cfgHubLabel
+			_, mode := parseHubWhat(h.Perts[hp].What)
+			hubModes[mode]++
+		}
+		for k, n := range r.hubSeen {
+			hubSeen[k] += n
+		}
+		for k, n := range r.hubFailed {
+			hubFailed[k] += n
 		}
 		perCfg[fmt.Sprintf("%s %d runs max_attempts=%d", uni, h.nRuns(), attemptsNames([]int{h.MaxAttempts})[0])]++
 		transitions += r.steps
@@ -1240,6 +1404,11 @@ func main() {
 			ckSeen[k] += n
 		}
 		for _, p := range h.Perts {
+			if p.Kind == kindHub {
+				op, mode := parseHubWhat(p.What)
+				faultFired["hub-fault("+hubKindOf(op)+","+mode+")"]++
+				continue
+			}
 			faultFired[p.What]++
 		}
 		for _, v := range r.viols {
@@ -1252,9 +1421,17 @@ func main() {
 			longest = r
 		}
 	}
-	workers := runtime.GOMAXPROCS(0)
+	progress, t0 := os.Getenv("VERIF_C27_PROGRESS") != "", time.Now() // experiments only
+	workers := runtime.NumCPU()
+	if s := os.Getenv("VERIF_C27_WORKERS"); s != "" { // experiments only
+		fmt.Sscanf(s, "%d", &workers)
+	}
+	pl := startPool(workers)
+	thePool = pl
 
-	// ---- phase 1: the 2-file universe, stateless DFS over perturbation placements
+	// ---- the 2-file universe, stateless DFS over perturbation placements. It runs CONCURRENTLY with the chain universe
+	// below (both hand their histories to the same worker pool), so that a run that hits its wall-clock cap on a loaded
+	// machine has explored a share of each instead of all of one; neither search reads the other's results.
 	stack = append(stack, roots...)
 	outstanding = len(stack)
 	var wg sync.WaitGroup
@@ -1277,8 +1454,8 @@ func main() {
 				mu.Unlock()
 
 				b := boundOf[cfgKey(h)]
-				_, _, ne := count(h)
-				r := runHistory(h, ne < b.E && len(h.Perts) < b.Total)
+				_, _, wantEv, _ := room(h, b)
+				r := pl.run(h, wantEv, -1, b)
 				var kids []history
 				if r.inapplicable == "" && len(r.viols) == 0 {
 					kids = children(r, b)
@@ -1286,6 +1463,40 @@ func main() {
 
 				mu.Lock()
 				account(r)
+				if progress && histories%500 == 0 {
+					fmt.Fprintf(os.Stderr, "C27: %d histories, stack %d, %.0fs\n", histories, len(stack), time.Since(t0).Seconds())
+				}
+				hp := hubPert(h)
+				for i := range kids {
+					kids[i].twinOK = hp < 0 || !r.laterSame
+				}
+				if hp >= 0 && r.inapplicable == "" && len(r.viols) == 0 {
+					// hubfault.go: the persistent twin is a different execution only when a later hub operation of the same
+					// kind exists inside the main runs; it is then a history of its own (executed, judged, extended). When
+					// the parent already showed such an operation, the parent's persistent twin exists and generates it.
+					if _, mode := parseHubWhat(h.Perts[hp].What); mode == modeOnce {
+						if r.laterSame && h.twinOK {
+							kids = append(kids, withHubMode(h, modePersist))
+						} else if !r.laterSame {
+							twinSkipped++
+						}
+					}
+				}
+				// a history with a persistent hub fault is generated both as the twin of its `once` form and as a child
+				// of a shorter persistent history: executed once
+				kept := kids[:0]
+				for _, k := range kids {
+					if hp := hubPert(k); hp >= 0 {
+						if _, mode := parseHubWhat(k.Perts[hp].What); mode == modePersist {
+							if claimed[k.String()] {
+								continue
+							}
+							claimed[k.String()] = true
+						}
+					}
+					kept = append(kept, k)
+				}
+				kids = kept
 				stack = append(stack, kids...)
 				outstanding += len(kids) - 1
 				if run.TimeUp() || time.Now().After(capAt) {
@@ -1296,24 +1507,28 @@ func main() {
 			}
 		}()
 	}
-	wg.Wait()
+	stopped := func() bool { mu.Lock(); defer mu.Unlock(); return stop }
+	setStop := func() { mu.Lock(); stop = true; mu.Unlock(); cond.Broadcast() }
 
-	// ---- phase 2: the chain universe, level-synchronous search with state matching (chain.go). A level = all
+	// ---- the chain universe, level-synchronous search with state matching (chain.go). A level = all
 	// histories with the same number of perturbations, executed in parallel and then booked in generation order,
 	// so which history represents a state (and therefore every count and every minimal counterexample) is
 	// reproducible.
 	chainKeys, chainPruned, chainCut, chainLevels := 0, 0, 0, 0
-	for _, root := range chainRoots {
+	for ri, root := range chainRoots {
 		b := boundOf[cfgKey(root)]
 		// A state met at the end of run r has every future of the same state met at the end of a later run (main
 		// runs without a perturbation are exactly what closing runs are) and of the same state met right after a
 		// gap event of run >= r (the gap may stay quiet); a state met after a gap event covers the same state after
 		// a later gap event. seenEnd / seenEv hold the earliest run at which a state was extended.
 		seenEnd, seenEv := map[string]int{}, map[string]int{}
-		covered := func(m map[string]int, k string, r int) bool { at, ok := m[k]; return ok && at <= r }
-		stateKey := func(h history, state string) string { return budgetKey(h, b) + "|" + state }
+		newEnd, newEv := map[string]int{}, map[string]int{}
+		rootID := ri
+		if noDedup {
+			rootID = -1
+		}
 		level := []history{root}
-		for depth := 0; len(level) > 0 && !stop; depth++ {
+		for depth := 0; len(level) > 0 && !stopped(); depth++ {
 			results := make([]*result, len(level))
 			var next int64 = -1
 			var lw sync.WaitGroup
@@ -1326,12 +1541,8 @@ func main() {
 						if j >= len(level) || run.TimeUp() || time.Now().After(capAt) {
 							return
 						}
-						h := level[j]
-						// seenEnd / seenEv are only written between levels, so this reads a frozen snapshot
-						results[j] = runHistoryCut(h, true, func(state string, r int, afterEv bool) bool {
-							k := stateKey(h, state)
-							return !noDedup && (covered(seenEnd, k, r) || (afterEv && covered(seenEv, k, r)))
-						})
+						// the workers' copy of seenEnd / seenEv is only updated between levels: a frozen snapshot
+						results[j] = pl.run(level[j], true, rootID, b)
 					}
 				}()
 			}
@@ -1339,10 +1550,12 @@ func main() {
 			var nextLevel []history
 			for _, r := range results {
 				if r == nil {
-					stop = true // capped: part of this level was not executed
+					setStop() // capped: part of this level was not executed
 					continue
 				}
+				mu.Lock()
 				account(r)
+				mu.Unlock()
 				if r.inapplicable != "" || len(r.viols) > 0 {
 					continue
 				}
@@ -1352,26 +1565,31 @@ func main() {
 					continue
 				}
 				if r.key != "" && !noDedup {
-					k := stateKey(r.h, r.key)
+					k := stateKey(r.h, b, r.key)
 					if covered(seenEnd, k, r.keyRun) || (r.keyAfterEv && covered(seenEv, k, r.keyRun)) {
 						chainPruned++
 						continue
 					}
 					if r.keyAfterEv {
-						seenEv[k] = r.keyRun
+						seenEv[k], newEv[k] = r.keyRun, r.keyRun
 					} else {
-						seenEnd[k] = r.keyRun
+						seenEnd[k], newEnd[k] = r.keyRun, r.keyRun
 					}
 					chainKeys++
 				}
 				nextLevel = append(nextLevel, children(r, b)...)
 			}
 			level = nextLevel
+			if len(level) > 0 && !stopped() && !noDedup {
+				pl.broadcastSeen(rootID, newEnd, newEv)
+				newEnd, newEv = map[string]int{}, map[string]int{}
+			}
 			if depth+1 > chainLevels {
 				chainLevels = depth + 1
 			}
 		}
 	}
+	wg.Wait()
 	exhaustive := !stop
 
 	if inapplic > 0 {
@@ -1403,6 +1621,10 @@ func main() {
 			found := false
 			for _, q := range big.Perts {
 				pw, qw := gridless(p.What), gridless(q.What)
+				if p.Kind == kindHub && q.Kind == kindHub { // class matching is by hub operation, not by mode
+					pw, _ = parseHubWhat(pw)
+					qw, _ = parseHubWhat(qw)
+				}
 				found = found || (p.At == q.At && p.Kind == q.Kind && pw == qw) || (p.Kind == "event" && q.Kind == "event" && pw == qw)
 			}
 			if !found {
@@ -1483,15 +1705,56 @@ func main() {
 				cur = dflt
 			}
 		}
-		for changed := true; changed; {
-			changed = false
-			for i := range cur.Perts {
-				cand := cur.with(append(append([]pert{}, cur.Perts[:i]...), cur.Perts[i+1:]...))
-				if v, ok := failsSomehow(cand); ok {
-					cur, changed = v, true
+		dropLoop := func() {
+			for changed := true; changed; {
+				changed = false
+				for i := range cur.Perts {
+					cand := cur.with(append(append([]pert{}, cur.Perts[:i]...), cur.Perts[i+1:]...))
+					if v, ok := failsSomehow(cand); ok {
+						cur, changed = v, true
+						break
+					}
+				}
+			}
+		}
+		dropLoop()
+		// A hub fault that has to fail only once is the smaller cause: the same operation as `once`, or — when the failure
+		// that matters is a later one of the persistent series — that later operation as `once`.
+		for round := 0; round < 3; round++ {
+			hp := hubPert(cur)
+			if hp < 0 {
+				break
+			}
+			if _, mode := parseHubWhat(cur.Perts[hp].What); mode != modePersist {
+				break
+			}
+			if v, ok := failsSomehow(withHubMode(cur, modeOnce)); ok {
+				cur = v
+				break
+			}
+			_, cr := failsWith(cur)
+			sites := append([]pert{}, cr.hubFired...)
+			sort.Slice(sites, func(i, j int) bool { return sites[i].String() < sites[j].String() })
+			moved := false
+			for _, site := range sites {
+				ps := append(append([]pert{}, cur.Perts[:hp]...), cur.Perts[hp+1:]...)
+				ps = append(ps, site)
+				// the storage events of the history may be addressed relative to calls that only exist while the persistent
+				// series is running: also try each of them in every gap
+				for _, cand := range eventPlacements(cur.with(ps)) {
+					if v, ok := failsSomehow(cand); ok {
+						cur, moved = v, true
+						break
+					}
+				}
+				if moved {
 					break
 				}
 			}
+			if !moved {
+				break
+			}
+			dropLoop()
 		}
 		for changed := true; changed; { // earliest runs
 			changed = false
@@ -1503,6 +1766,7 @@ func main() {
 				}
 			}
 		}
+		cur = executionOrder(cur)
 		_, mr := failsWith(cur)
 		detail := f.v.Detail
 		for _, v := range mr.viols {
@@ -1546,14 +1810,20 @@ func main() {
 	run.Coverage["ledger_transitions_observed"] = transSeen
 	run.Coverage["receiver_outcomes_observed"] = outcomeSeen
 	run.Coverage["perturbations_executed"] = faultFired
+	run.Coverage["hub_operations_observed_while_serving"] = hubSeen
+	run.Coverage["hub_operations_failed_by_injection"] = hubFailed
+	run.Coverage["hub_fault_histories_by_mode"] = hubModes
+	run.Coverage["hub_fault_persistent_twins_identical_to_once_not_repeated"] = twinSkipped
+	run.Coverage["worker_processes"] = workers
 	cf, cc := chainPutOutcomes(len(contentOf[pF1]))
-	run.Coverage["alphabet"] = map[string]any{"put_faults": putFaults, "reconcile_faults": recFaults, "crash": crashKinds, "events": allEvents,
+	run.Coverage["alphabet"] = map[string]any{"put_faults": putFaults, "reconcile_faults": recFaults, "crash": crashKinds, "events": allEvents, "hub_fault_operation_kinds": hubKinds, "hub_fault_modes": []string{modeOnce, modePersist},
 		"chain_put_outcomes": append(append([]string{oPass}, cf...), cc...), "chain_gap_events": chainEventKinds}
 	run.Coverage["rule"] = "a history is a set of perturbations attached to points of a 3-run execution (k-th transport call of run r, or the gap after run r); " +
 		"children of an executed history add one perturbation at every later point the parent's trace shows (every fault of the call kind's alphabet, every crash kind, every event applicable in the real state at that point), " +
 		"so every placement within the bound is executed exactly once; a state is the canonical dump (ledger rows, spoke files, hub final files, hub staging, hub receipts, hub-compacted set) at a step boundary; " +
 		"a transition is one implementation step (agent run start, transport call served by the real hub, storage event); violating histories are not extended. " +
-		chainRule
+		hubRule + ". " + chainRule
+	run.Assume(hubAssume)
 	run.Assume("MaxConcurrent=1 and one reconcile page (BatchSize=0): transfers of one pass are sequential, so the k-th call is well defined; concurrency of sendAll is not explored here")
 	run.Assume("spoke crash = context cancellation at a transport call (no ledger write succeeds afterwards) + a fresh Agent/Ledger/SQLite handle; a kill inside a SQLite transaction is not modelled")
 	run.Assume("the hub process itself does not crash; hub compaction is modelled as cmd/arc wires it (MarkCompacted, then source deletion), hub retention/rm as a bare delete without HubIndex.Forget (the documented #611 gap)")
@@ -1562,8 +1832,10 @@ func main() {
 	run.Assume("short-body = first half of the transmitted bytes; corrupted = one flipped byte in the middle of the transmitted bytes; injected conflict/backpressure answers do not touch hub state")
 	fmt.Printf("C27: histories=%d %v states=%d transitions=%d final-outcomes=%d raw-violating=%d classes=%d exhaustive=%v closing(max)=%d\n",
 		histories, perCfg, len(states), transitions, len(finals), len(fails), run.ViolationClasses(), exhaustive, maxClosing)
+	fmt.Printf("C27: hub faults: histories by mode=%v persistent twins identical to once (not repeated)=%d operations observed=%v failed=%v\n", hubModes, twinSkipped, hubSeen, hubFailed)
 	fmt.Printf("C27: chain universe: levels=%d states-expanded=%d not-extended(state seen)=%d (cut early=%d) checkpoint-vs-staged=%v\n", chainLevels, chainKeys, chainPruned, chainCut, ckSeen)
 	cleanup()
+	fmt.Printf("C27: %d worker processes used %.1fs of CPU\n", workers, pl.cpu.Seconds())
 	run.Finish()
 }
 
